@@ -228,6 +228,10 @@ class OkapiIndex(BaseIndex):
         # used often enough that speed should matter.
         self._totaldoclen = Length(0)
 
+    def reset(self):
+        BaseIndex.reset(self)
+        self._totaldoclen = Length(0)
+
     def index_doc(self, docid, text):
         count = BaseIndex.index_doc(self, docid, text)
         self._change_doc_len(count)
